@@ -78,6 +78,7 @@ def warm_quick():
     runs.append(('LayerIndex', f'LayerIndex_{md}.cfg', dict(workers=1, timeout=900)))
   for md in ('rnn', 'attn'):
     runs.append(('SeqIndex', f'SeqIndex_{md}.cfg', dict(workers=1, timeout=900)))
+  runs.append(('NnxRng', 'NnxRng_mc.cfg', dict(workers=8, timeout=900)))
   runs.append(('NnxGraph', 'NnxGraph_mc.cfg', dict(workers=16, timeout=3000)))
   runs.append(('NnxGraph', 'NnxGraph_small.cfg', dict(workers=1, timeout=3000)))
   return runs
